@@ -857,6 +857,59 @@ func (r *errAfterReader) Close() error { return nil }
 // TestVerifC19CacheEntries: the first call leaves (or must not leave) a cache entry; the second call shows
 // whether an entry is used. Entries belong to one parent (kind, namespace, name) and only come from answers
 // that were usable: a 200 whose body arrived completely.
+// Sequences of calls about one parent against a server whose content changes with a new ETag, changes while it
+// keeps the ETag (weak validators: a 200 that repeats the ETag just sent, with another body), or does not change
+// (304/412 when the validator matches). What a 304/412 stands for is the body most recently delivered together with
+// that ETag; every call must return the server's current content.
+func TestVerifC19EtagReuse(t *testing.T) {
+	vs.RunExhaustive(t, "C19", 200_000, func(c *vs.Case) error {
+		n := 3 + c.Int(2)
+		steps := make([]int, n) // 0 unchanged, 1 new content same ETag, 2 new content new ETag
+		for i := range steps {
+			if i > 0 {
+				steps[i] = c.Int(3)
+			}
+		}
+		notModified := []int{304, 412}[c.Int(2)]
+		c.Describe(func() any { return map[string]any{"steps": steps, "notModifiedCode": notModified} })
+		etagN, v := 1, 1
+		var log []string
+		client := &scriptedClient{}
+		cur := 0
+		client.do = func(req *http.Request) (*http.Response, error) {
+			switch steps[cur] {
+			case 1:
+				v++
+			case 2:
+				v++
+				etagN++
+			}
+			etag := fmt.Sprintf(`"e%d"`, etagN)
+			inm := req.Header.Get(headerIfNoneMatch)
+			if steps[cur] == 0 && inm == etag {
+				log = append(log, fmt.Sprintf("%d(INM %s)", notModified, inm))
+				return httpResp(notModified, nil, ""), nil
+			}
+			log = append(log, fmt.Sprintf("200(%s,v=%d; INM %s)", etag, v, inm))
+			return httpResp(200, etagHdr(etag), fmt.Sprintf(`{"status":{"v":%d},"children":[]}`, v)), nil
+		}
+		ex := newC19Executor(client, true, time.Hour, false)
+		for cur = 0; cur < n; cur++ {
+			var r c19Resp
+			if err := ex.Call(c19Parent(), &r); err != nil {
+				return vs.Violf("C19/valid-answer-rejected", "call %d of %v failed: %v", cur+1, log, err)
+			}
+			if fmt.Sprint(r.Status["v"]) != fmt.Sprint(v) {
+				return vs.Violf("C19/304-answered-with-another-body", "exchanges %v: call %d returned the body of content version %v, the server's content (and what its last answer stands for) is version %d", log, cur+1, r.Status["v"], v)
+			}
+			if steps[cur] == 1 {
+				c.NonTrivial()
+			}
+		}
+		return nil
+	})
+}
+
 func TestVerifC19CacheEntries(t *testing.T) {
 	vs.RunExhaustive(t, "C19", 100_000, func(c *vs.Case) error {
 		first := c.PickStr("200-ok", "200-body-cut-off", "500-with-etag", "404-with-etag", "200-undecodable")
